@@ -371,3 +371,15 @@ Theorem C15_zero_fill_quirk :
   (exists c r, decode crc32c Z toy2_deser RGroup (firstn 9 fr) = OCorrupt c r).
 Proof. exact zero_fill_quirk. Qed.
 Print Assumptions C15_zero_fill_quirk.
+
+(** Source tie: the model's size-limit tests (Encode, Decode), the checksum comparison, the tests of
+    SearchForEndHeight (early exit [lastHeightFound > 0 && lastHeightFound < height], found, skip-corrupted,
+    the file loop bound), OnStart's [size == 0], checkHeadSizeLimit, checkTotalSizeLimit (switch-off,
+    [i < maxFilesToRemove], [totalSize < limit], [index == gInfo.MaxIndex], [totalSize -= size]),
+    readGroupInfo's running minimum / maximum and the readers' index tests ARE the expressions of
+    consensus/wal.go and lib/autofile/group.go, on the operands named there, as /verif/go2coq regenerates
+    them from the Go source on every check (statement spelled out in SourceTie.v). *)
+From Kardia Require Import C15.SourceTie.
+Theorem C15_source_tie : C15_source_tie_statement.
+Proof. exact C15_source_tie_proof. Qed.
+Print Assumptions C15_source_tie.
